@@ -78,7 +78,7 @@ struct TwoNode {
 
 static void case_table(const Args &a, long idx, bool wantDesc, CaseResult &res) {
     long k = idx;
-    int gti = (int)(k % 2); k /= 2; int sdi = (int)(k % 8); k /= 8; int sti = (int)(k % 2); k /= 2; int gi = (int)(k % 6); k /= 6; int seqi = (int)(k % 59); k /= 59; int flip = (int)(k % 2); k /= 2; int second = (int)(k % 3); k /= 3;
+    int gti = (int)(k % 2); k /= 2; int sdi = (int)(k % 8); k /= 8; int sti = (int)(k % 2); k /= 2; int gi = (int)(k % 6); k /= 6; int seqi = (int)(k % 59); k /= 59; int flip = (int)(k % 2); k /= 2; int second = (int)(k % 5); k /= 5;
     if (k > 0) { res.inconclusive = "beyond-table"; return; }
     Rng R(mix(mix(a.seed, 0xC18), (uint64_t)idx));
     std::vector<int> seq; if (seqi < 7) seq = {seqi}; else if (seqi < 56) seq = {(seqi - 7) / 7, (seqi - 7) % 7}; else if (seqi == 56) seq = {0, 0, 0, 0}; else if (seqi == 57) seq = {1, 1, 1, 1}; else seq = {0, 0, 2};
@@ -88,7 +88,7 @@ static void case_table(const Args &a, long idx, bool wantDesc, CaseResult &res) 
     bool horiz = sdi == 0 || sdi == 2 || sdi == 4 || sdi == 6;
     JArr sj; for (int tf : seq) sj.str(TFN[tf]);
     std::string desc = JObj().str("gapType", gti ? "BDRY" : "CENTRE").str("dir", std::string(1, SDC[sdi])).str("relation", sti ? ">=" : "==").num("gap", gap).b("gap_sign_bit", std::signbit(gap)).raw("transforms", sj.done())
-        .b("stored_as_b_a_with_negated_direction", flip).str("second_constraint", second == 0 ? "none" : second == 1 ? "other axis BDRY >= 5 added before" : "other axis CENTRE == 7 added after")
+        .b("stored_as_b_a_with_negated_direction", flip).str("second_constraint", second == 0 ? "none" : second == 1 ? "other axis BDRY >= 5 added before" : second == 2 ? "other axis CENTRE == 7 added after" : second == 3 ? "other axis BDRY >= 5 added before, ids in the opposite order" : "other axis CENTRE == 7 added after, ids in the opposite order")
         .raw("dims_wa_ha_wb_hb", JArr().num(wa).num(ha).num(wb).num(hb).done()).num("extraBdryGap", extra).done();
     Digest D; D.s(desc); res.digest = D.h; res.gen = std::string(seq.size() == 1 ? "single-transform" : seq.size() == 2 ? "pair-of-transforms" : "long-sequence") + (flip ? "/flipped-storage" : "");
     if (wantDesc) res.desc = desc;
@@ -96,9 +96,9 @@ static void case_table(const Args &a, long idx, bool wantDesc, CaseResult &res) 
 
     auto build = [&](TwoNode &T, bool flipped) {
         SepDir other = horiz ? SepDir::DOWN : SepDir::RIGHT;
-        if (second == 1) T.add(flipped, GapType::BDRY, other, SepType::INEQ, 5);
+        if (second == 1 || second == 3) T.add(second == 3 ? !flipped : flipped, GapType::BDRY, other, SepType::INEQ, 5);
         T.add(flipped, gt, sd, st, gap);
-        if (second == 2) T.add(flipped, GapType::CENTRE, other, SepType::EQ, 7);
+        if (second == 2 || second == 4) T.add(second == 4 ? !flipped : flipped, GapType::CENTRE, other, SepType::EQ, 7);
     };
     TwoNode T(wa, ha, wb, hb, extra); build(T, flip != 0);
     std::vector<SepLine> L0; std::string text0, err;
@@ -115,7 +115,7 @@ static void case_table(const Args &a, long idx, bool wantDesc, CaseResult &res) 
     for (int q = 0; q < 200; q++) Ps.push_back(mk(near[R.ri(0, (long)near.size() - 1)], near[R.ri(0, (long)near.size() - 1)]));
 
     // (a) a-priori meaning of a single call with a non-negative gap, from the documentation of the directions
-    bool haveRef = second == 0 && !std::signbit(gap);
+    bool haveRef = !std::signbit(gap);
     SepLine ref; ref.a = 0; ref.b = 1; ref.gapType = gti ? 'B' : 'C'; ref.dir = SDC[sdi]; ref.eq = !sti; ref.gap = gap + (gti ? extra : 0);
     // (b) flipped storage: the same constraint entered the other way round
     TwoNode T2(wa, ha, wb, hb, extra); build(T2, flip == 0);
@@ -138,7 +138,10 @@ static void case_table(const Args &a, long idx, bool wantDesc, CaseResult &res) 
     long sat0 = 0, unsat0 = 0;
     for (auto &P : Ps) {
         double v0 = tglfViolation(L0, P); bool s0 = v0 <= TOL; (s0 ? sat0 : unsat0)++;
-        if (haveRef) { double vr = sepViolation(ref, P.at(0), P.at(1)); if ((vr <= TOL) != s0) { res.violate(std::string("meaning:written-constraint-differs-from-documented-direction[") + SDC[sdi] + (gti ? ",B" : ",C") + "]", JObj().str("written", text0).raw("placement", plJson(P)).num("violation_of_written", v0).num("violation_of_documented", vr).raw("case", desc).done()); return; } }
+        if (haveRef) { double vr = sepViolation(ref, P.at(0), P.at(1)); bool cardinal = sdi < 4;
+            // a second constraint on the other axis: added before a cardinal direction it is overwritten by the alignment; otherwise both hold
+            if ((second == 1 || second == 3) && !cardinal) { SepLine r2 = ref; r2.gapType = 'B'; r2.dir = horiz ? 'D' : 'R'; r2.eq = false; r2.gap = 5 + extra; vr = std::max(vr, sepViolation(r2, P.at(0), P.at(1))); }
+            if (second == 2 || second == 4) { SepLine r2 = ref; r2.gapType = 'C'; r2.dir = horiz ? 'D' : 'R'; r2.eq = true; r2.gap = 7; if (cardinal) { SepLine r1 = ref; r1.dir = "RDLU"[sdi]; vr = sepViolation(r1, P.at(0), P.at(1)); } vr = std::max(vr, sepViolation(r2, P.at(0), P.at(1))); } if ((vr <= TOL) != s0) { res.violate(std::string("meaning:written-constraint-differs-from-documented-direction[") + SDC[sdi] + (gti ? ",B" : ",C") + "]", JObj().str("written", text0).raw("placement", plJson(P)).num("violation_of_written", v0).num("violation_of_documented", vr).raw("case", desc).done()); return; } }
         double w0 = vpscViolation(T2.G, T2.id2ext, P);   // T2 holds the untransformed constraint
         if ((w0 <= TOL) != s0) { res.violate("channels:vpsc-constraints-differ-from-written-constraint", JObj().str("written", text0).raw("placement", plJson(P)).num("violation_tglf", v0).num("violation_vpsc", w0).raw("case", desc).done()); return; }
         Placement Q = mapPlacement(seq, P);
